@@ -185,7 +185,7 @@ partial def getAt (o : Opts) (n : Json) : Path → Option Json
     | _ => none
   | .setKeys po :: r => match n with
     | .arr _ xs =>
-      match xs.filter (fun x => match x with | .obj kvs => matchesKeys kvs po | _ => false) with
+      match xs.filter (keyedMembers xs po) with
       | m :: _ => getAt o m r
       | [] => none
     | _ => none
@@ -232,6 +232,12 @@ def oracleC07 (o : Opts) (a b : Json) (d : Diff) (loo : List (Outcome Json)) : S
          | _ => false)
       | _ => false)) then
     cls "an object-member hunk removes a value that is not a's or adds a value that is not b's"
+  -- (i) list reading: every hunk names values (and context) present at the addressed location of the
+  --     document the preceding hunks produce (the coordinates the diff format defines)
+  else if dispatchTag o == .list && !(isMerge o) &&
+      (d.foldl (fun (st : Option Json) h => st.bind (fun n => applyStrict n h.path h)) (some a)).isNone &&
+      d.all (fun h => h.path.all (fun e => match e with | .key _ | .idx _ => true | _ => false)) then
+    cls "a hunk removes values, or names context, not present at the addressed location (after the preceding hunks)"
   -- (iv) no redundant hunk
   else match (loo.zipIdx.find? (fun (out, _) => match out with
       | .ok r => equivB o r b && equals o r b
